@@ -456,6 +456,7 @@ pub fn run(rep: &mut StageReport, tier: &str, seed: u64) {
     let mut counts: HashMap<String, u64> = HashMap::new();
     let mut pipelined = 0u64;
     let mut lib_refusals = 0u64;
+    let mut unicode_regs = 0u64;
     for r in 0..reps {
         let certs = match gen_certs() {
             Ok(c) => c,
@@ -478,6 +479,11 @@ pub fn run(rep: &mut StageReport, tier: &str, seed: u64) {
             for (sig, detail) in f {
                 v.push(V(sig, detail));
             }
+            let (n, f) = tokio::time::timeout(Duration::from_secs(120), super::wirepeers::c11_unicode_names(server.addr, &certs)).await.map_err(|_| "watchdog: non-ASCII name registrations did not finish in 120 s".to_string())??;
+            unicode_regs += n;
+            for (sig, detail) in f {
+                v.push(V(sig, detail));
+            }
             let (n, f) = tokio::time::timeout(Duration::from_secs(240), super::wirepeers::c11_library_reports_refusals(&certs)).await.map_err(|_| "watchdog: library-refusal scenario did not finish in 240 s".to_string())??;
             lib_refusals += n;
             for (sig, detail) in f {
@@ -486,11 +492,11 @@ pub fn run(rep: &mut StageReport, tier: &str, seed: u64) {
             server.stop();
             Ok::<Vec<V>, String>(v)
         });
-        rep.evaluations += 24 + rounds as u64 + 3 + 6 + 32;
+        rep.evaluations += 24 + rounds as u64 + 3 + 6 + 32 + 54;
         match out {
             Ok(viols) => {
                 if viols.is_empty() {
-                    for i in 0..(24 + rounds as u64 + 3 + 6 + 32) {
+                    for i in 0..(24 + rounds as u64 + 3 + 6 + 32 + 54) {
                         rep.distinct.insert(crate::common::mix(r as u64, i));
                     }
                 }
@@ -512,6 +518,7 @@ pub fn run(rep: &mut StageReport, tier: &str, seed: u64) {
     }
     rep.count("pipelined_registration_cases(independent wire peer)", pipelined);
     rep.count("library_open_calls_answered_with_error_frames(hand-written server)", lib_refusals);
+    rep.count("registrations_with_non_ascii_names", unicode_regs);
     rep.sample(json!({"first_frame_matrix": "8 first-frame kinds × {fresh, existing pub/sub, existing req/rep} topic: each stream must be served in its role (demonstrated by traffic) or refused by an Error frame with a code", "midstream_rounds": rounds}));
     rep.sample(json!({"midstream_round_kinds": ["requestor sends all 8 frame kinds", "requests of limit−{0..64} bytes", "bound replier sends all kinds + malformed tags then leaves (a new replier must serve)", "publisher sends all kinds + frames at the limit"], "after_each": "well-behaved round trip on the same topic; panic log must stay empty"}));
     rep.rule = "one evaluation = one cell of the first-frame matrix (8 kinds × 3 topic states), one hostile mid-stream round followed by a well-behaved round trip on the same topic, or one client-library refusal check; raw quinn peers speaking BiStream/Frame against an in-process server; distinct = distinct cell/round".into();
